@@ -158,7 +158,12 @@ class Env:
         for i, p in enumerate(self.plugins):
             if (plugin_fail_mask >> i) & 1:
                 p.fail = exc("plugin %d shutdown failed" % i)
-        dd.load_plugins = lambda config, custom=None: list(self.plugins)
+        self.plugin_loads = 0
+
+        def load(config, custom=None):
+            self.plugin_loads += 1
+            return list(self.plugins)
+        dd.load_plugins = load
         cfg = {"APP_ROOT": "/app", "SERVICE_SECURE": "False"}
         if no_trace is not None:
             cfg["NO_TRACE"] = no_trace
@@ -212,12 +217,14 @@ def lifecycle(o1: int, o2: int, o3: int, o4: int, n: int, sys0: int, thr0: int, 
             ops = list(ops) + [1]       # every history ends with a shutdown (a no-op when already stopped)
         for op in ops:
             if op == 0:     # start
+                loads = env.plugin_loads
                 try:
                     d.start()
                 except BaseException as e:  # noqa
                     if world.is_engine_exc(e):
                         raise
                     return "C14:start-raised:" + type(e).__name__
+                started_before = started
                 if not started:
                     started = True
                     decided = no_trace
@@ -228,6 +235,8 @@ def lifecycle(o1: int, o2: int, o3: int, o4: int, n: int, sys0: int, thr0: int, 
                         exp_sys = exp_thr = d.trigger_handler.trace_call
                 if not d.started:
                     return "C14:started-flag-false-after-start"
+                if env.plugin_loads != loads + (0 if started_before else 1):
+                    return "C14:start-while-started-reloaded-the-plugins(first set never shut down)" if started_before else "C14:plugins-not-loaded-once-by-start"
             elif op >= 2:   # the APPLICATION changes the process trace hooks (only while the agent is stopped)
                 if started:
                     continue
